@@ -502,7 +502,7 @@ def run(tier, seed, only=None):
             rep.add(Obligation(key="source/shape", verdict=BROKEN, reason="hir.rs enums/structs or the `is_pure(expr)` guard of eliminate_unused_def could not be read as expected"))
             return rep.finish()
         rep.add(Obligation(dict(engine="source scan", functions=["HIROptimizer::eliminate_unused_def"]), key="link/eliminate-iff-pure", verdict=HELD, nontrivial=False,
-                           reason="eliminate_unused_def replaces a definition by a no-op only under `... && SideEffectChecker::is_pure(expr)` (read from the source)"))
+                           reason="eliminate_unused_def replaces a definition by a no-op only under `... && SideEffectChecker::is_pure(expr)` (read from the source; decided on the MIR by eliminate/only-unreferenced-and-pure)"))
         text, dt, err, rc = M.dump_mir(s, "erg_compiler", overflow_checks=True, extra_cargo=["--lib"])
         if rc != 0 or len(text) < 1000:
             log("MIR dump failed:\n" + err[-3000:])
@@ -510,6 +510,8 @@ def run(tier, seed, only=None):
             return rep.finish()
         log("  MIR dump erg_compiler: %.0fs, %d MB" % (dt, len(text) >> 20))
         fns = M.parse_mir(text, want=["::is_impure"])
+        import c12_elim
+        eviol = c12_elim.stage(rep, s, text, only)
         del text
         mains = [f for f in fns.values() if f.short == "is_impure"]
         if len(mains) != 1:
@@ -687,8 +689,8 @@ def run(tier, seed, only=None):
                 ob["verdict"] = BROKEN
                 ob["reason"] = "counterexample did not reproduce natively (%s): %s" % (got, ob["reason"])
         confirmed = [(t, rp[i]) for i, t in enumerate(to_replay) if t[0]["verdict"] == VIOLATED]
-        if confirmed and (tier == "thorough" or any(not rep.known.lookup(rep.prop, t[0]["key"]) for t, _ in confirmed)):
-            e2e(s, rep, confirmed)
+        if (confirmed or eviol) and (tier == "thorough" or eviol or any(not rep.known.lookup(rep.prop, t[0]["key"]) for t, _ in confirmed)):
+            e2e(s, rep, confirmed, eviol)
         rep.assumptions += sorted(used) + [
             "what counts as an effect is taken from check_expr: a call whose callee has a procedure type or whose method name is procedural",
             "eagerly evaluated children: callee, receiver and arguments of a call; operands; elements, keys and values of literals; the initialisers of record fields; "
@@ -703,14 +705,20 @@ def run(tier, seed, only=None):
 
 
 
-def e2e(s, rep, confirmed):
+def e2e(s, rep, confirmed, eviol=()):
     t0 = time.time()
     tdir = os.path.join(s.root, "native")
     rc, out, dt = sh(["cargo", "build", "--offline", "--bin", "erg"], cwd=s.src, env=s.env(CARGO_TARGET_DIR=tdir), timeout=2400)
     exe = os.path.join(tdir, "debug", "erg")
     if rc != 0 or not os.path.exists(exe):
         log("  e2e: building erg failed (rc=%s)" % rc)
+        for ob in eviol:
+            ob["verdict"] = INCONCLUSIVE
+            ob["reason"] = "no end-to-end replay available (erg did not build): " + ob["reason"]
         return
+    if eviol:
+        import c12_elim
+        c12_elim.e2e(s, exe, eviol)
     for n, ((ob, key, effs, own, tmpl, tmpl_proc), (prog, assign, _)) in enumerate(confirmed[:8]):
         f = os.path.join(s.root, "e2e_%d.er" % n)
         open(f, "w").write(prog)
